@@ -253,6 +253,7 @@ def run(rep):
             else:
                 rep.bump('inf:' + classify(a))
     import_cycles(rep, rng, quick)
+    huge_limits(rep, rng, quick)
     # native stack: deep evaluation with a huge limit must not abort
     big = 20000 if quick else 200000
     deep = [
@@ -269,6 +270,35 @@ def run(rep):
         if classify(a) == 'CRASH':
             rep.violation('c10deep:' + s, 'native stack exhausted / crash on deep evaluation: ' + a[:160],
                           {'src': s, 'max_stack': 10 * big, 'impl': a})
+
+
+def huge_limits(rep, rng, quick):
+    """Raising the limit never changes the outcome of a program that already succeeded: also for the largest limits the
+    option accepts (what a user writes for "no limit"), in-process and through the real binary."""
+    import subprocess
+    import os
+    progs = ['1 + 2', 'local f(n) = if n == 0 then 0 else 1 + f(n - 1); f(40)', 'std.length(std.toString(std.range(1, 50)))',
+             '[x * 2 for x in [1, 2, 3]] == [2, 4, 6]', '{a: 1} + {b: self.a}', 'error "stop"', 'local a = a; a']
+    limits = [10 ** 6, 2 ** 31, 2 ** 32 + 1, 2 ** 63 - 1, 2 ** 63, 2 ** 64 - 1]
+    base = [C.canon_impl(a) for a in vlib.impl([vlib.eval_line(p, max_stack=500) for p in progs])]
+    for lim in limits:
+        outs = [C.canon_impl(a) for a in vlib.impl([vlib.eval_line(p, max_stack=lim) for p in progs], timeout=120)]
+        for p, b, a in zip(progs, base, outs):
+            rep.count('c10huge:%d:%s' % (lim, p), True)
+            rep.bump('huge-limit')
+            if classify(a) == 'CRASH' or C.norm(a) != C.norm(b):
+                rep.violation('c10huge:%d:%s' % (lim, p), 'outcome under limit %d differs from the outcome under limit 500: %s vs %s'
+                              % (lim, a[:80], b[:80]), {'src': p, 'max_stack': lim, 'impl': a[:200]})
+    vlib.build_cli()
+    for lim in (2 ** 63, 2 ** 64 - 1):
+        for p in progs[:4]:
+            q = subprocess.run([vlib.CLI_BIN, '--max-stack', str(lim), '-e', p], stdout=subprocess.PIPE, stderr=subprocess.PIPE, timeout=120)
+            r = subprocess.run([vlib.CLI_BIN, '--max-stack', '500', '-e', p], stdout=subprocess.PIPE, stderr=subprocess.PIPE, timeout=120)
+            rep.count('c10hugecli:%d:%s' % (lim, p), True)
+            if (q.returncode, q.stdout) != (r.returncode, r.stdout):
+                rep.violation('c10hugecli:%d:%s' % (lim, p), 'rsjsonnet --max-stack %d answers rc=%s %r, --max-stack 500 answers rc=%s %r'
+                              % (lim, q.returncode, (q.stdout or q.stderr)[:80], r.returncode, r.stdout[:80]),
+                              {'src': p, 'max_stack': lim, 'cli': True})
 
 
 def import_cycles(rep, rng, quick):
@@ -345,6 +375,13 @@ def replay(r):
     rp = r['replay']
     if 'import_cycle' in rp:
         return replay_import_cycle(rp['import_cycle'])
+    if rp.get('cli'):
+        import subprocess
+        vlib.build_cli()
+        q = subprocess.run([vlib.CLI_BIN, '--max-stack', str(rp['max_stack']), '-e', rp['src']], stdout=subprocess.PIPE, stderr=subprocess.PIPE)
+        r = subprocess.run([vlib.CLI_BIN, '--max-stack', '500', '-e', rp['src']], stdout=subprocess.PIPE, stderr=subprocess.PIPE)
+        print(q.returncode, q.stdout[:100], q.stderr[:200]); print(r.returncode, r.stdout[:100])
+        return 0 if (q.returncode, q.stdout) == (r.returncode, r.stdout) else 1
     vlib.build_harness()
     a = C.canon_impl(vlib.impl([vlib.eval_line(rp['src'], max_stack=rp.get('max_stack', 500))])[0])
     print('impl :', a)
@@ -352,4 +389,8 @@ def replay(r):
         b = vlib.model(['core %d 6000 0 %s' % (rp.get('max_stack', 500), rp['sexp'])])[0]
         print('model:', b)
         return 0 if C.norm(a) == C.norm(b) else 1
+    if rp.get('max_stack', 0) > 10 ** 5:
+        b = C.canon_impl(vlib.impl([vlib.eval_line(rp['src'], max_stack=500)])[0])
+        print('limit 500:', b)
+        return 1 if (classify(a) == 'CRASH' or C.norm(a) != C.norm(b)) else 0
     return 1 if classify(a) == 'CRASH' else 0
